@@ -136,10 +136,21 @@ def normalise (d : Desc) : Except String Desc := do
 
 /-! ## the domain -/
 
+/-- a convolution-like operator whose weights (operand 1) are present and not constant (after the reader drops zero-length
+data): the reader makes no clones for it -/
+def convOk (ts : List TensorD) (p : POp) : Bool :=
+  !p.info.convLike ||
+  match p.inputs[1]? with
+  | some (some w) =>
+    match ts[w]? with
+    | some tw => (normValues tw.values).isNone
+    | none => false
+  | _ => false
+
 /-- a written operator on which the reader performs no surgery: no virtual output is created for it (AssignVariable / CallOnce)
-and it is not convolution-like (no reshaped clones of constant weights) -/
-def opOk (p : POp) : Bool :=
-  p.info.name != "AssignVariable" && p.info.name != "CallOnce" && !p.info.convLike
+and it is not a convolution-like operator with constant weights (no reshaped clones) -/
+def opOk (ts : List TensorD) (p : POp) : Bool :=
+  p.info.name != "AssignVariable" && p.info.name != "CallOnce" && convOk ts p
 
 /-- no original input is a result of a written operator (the reader's `Tensor.error`: a subgraph input with a producer) -/
 def inputsNotProduced (ps : PSub) : Bool :=
@@ -150,7 +161,7 @@ def subDomain (ts : List TensorD) (ps : PSub) : Bool :=
   inputsNotProduced ps                                                             -- see `inputsNotProduced`
 
 /-- no surgery: every written operator of the subgraph is `opOk` -/
-def subSimple (ps : PSub) : Bool := (writtenOps ps).all opOk
+def subSimple (ts : List TensorD) (ps : PSub) : Bool := (writtenOps ps).all (opOk ts)
 
 def preppedSubs (d : Desc) : List PSub :=
   match (subgraphsToWrite d).mapM (prepSub d.tensors) with
@@ -158,7 +169,7 @@ def preppedSubs (d : Desc) : List PSub :=
   | .error _ => []
 
 def roundtripDomain (d : Desc) : Bool := (preppedSubs d).all (subDomain d.tensors)
-def noSurgery (d : Desc) : Bool := (preppedSubs d).all subSimple
+def noSurgery (d : Desc) : Bool := (preppedSubs d).all (subSimple d.tensors)
 
 /-! ## general lemmas -/
 
@@ -395,10 +406,10 @@ structure OpFacts (ci : OpInfo) (rcodes : List Reader.RCode) (codes : List Code)
   code : ∀ i, opcodeIndex codes p = .ok i → Reader.codeAt rcodes i = .ok (normRCode ci p)
   flat : (normRCode ci p).op.nng.flat = (normRCode ci p).indices.flat
 
-/-- no surgery on this operator -/
-structure OpSimple (ci : OpInfo) (p : POp) : Prop where
+/-- no surgery on this operator when the tensor list is `T` -/
+structure OpSimple (ci : OpInfo) (all : List Nat) (b : Nat) (T : List TensorD) (p : POp) : Prop where
   name : ((normRCode ci p).op.name == "AssignVariable" || (normRCode ci p).op.name == "CallOnce") = false
-  conv : (normRCode ci p).op.convLike = false
+  conv : Reader.cloneStep (normRCode ci p).op T (p.inputs.map (ren all b)) = .ok (T, p.inputs.map (ren all b))
 
 theorem parse_written_operator (ci : OpInfo) (rcodes : List Reader.RCode) (codes : List Code) (all : List Nat) (b : Nat)
     (T : List TensorD) (k : Nat) (p : POp) (o : OperatorT)
@@ -473,18 +484,16 @@ theorem normOps_fileOutputs (ci : OpInfo) (all : List Nat) (b : Nat) : ∀ (pl :
     rfl
 
 /-- without surgery: the renumbered operators, no new tensor, no virtual output -/
-theorem normOps_simple (ci : OpInfo) (all : List Nat) (b : Nat) : ∀ (pl : List POp) (k : Nat) (T : List TensorD),
-    (∀ p ∈ pl, OpSimple ci p) → normOps ci all b pl k T = .ok (pl.map (normROp ci all b), T, [])
-  | [], k, T, _ => rfl
-  | p :: rest, k, T, hf => by
+theorem normOps_simple (ci : OpInfo) (all : List Nat) (b : Nat) (T : List TensorD) : ∀ (pl : List POp) (k : Nat),
+    (∀ p ∈ pl, OpSimple ci all b T p) → normOps ci all b pl k T = .ok (pl.map (normROp ci all b), T, [])
+  | [], k, _ => rfl
+  | p :: rest, k, hf => by
     have f := hf p (List.mem_cons_self ..)
     have hvs : ∀ outs, Reader.virtualStep (normRCode ci p) k T outs = (T, outs, none) := by
       intro outs; unfold Reader.virtualStep; simp only [f.name]; rfl
-    have hcs : ∀ ins, Reader.cloneStep (normRCode ci p).op T ins = .ok (T, ins) := by
-      intro ins; unfold Reader.cloneStep; simp only [f.conv]; rfl
     unfold normOps
-    simp only [hvs, hcs, bind, Except.bind]
-    rw [normOps_simple ci all b rest (k + 1) T (fun q hq => hf q (List.mem_cons_of_mem _ hq))]
+    simp only [hvs, f.conv, bind, Except.bind]
+    rw [normOps_simple ci all b T rest (k + 1) (fun q hq => hf q (List.mem_cons_of_mem _ hq))]
     rfl
 
 /-- table facts: the row `Custom` the Ethos-U operator is read back as has the operand order the writer uses for `CustomNpuOp`, is
@@ -517,11 +526,27 @@ theorem opFacts_of (ci : OpInfo) (hci : lookupOp "Custom" = some ci) (codes : Li
     simp only [hx, Bool.and_eq_true, beq_iff_eq] at hp
     exact hp.2.1.symm
 
-theorem opSimple_of (ci : OpInfo) (hci : lookupOp "Custom" = some ci) (p : POp) (hp : p.info.tableOk = true) (hok : opOk p = true)
-    (hinv : p.info.inv.isSome = true) : OpSimple ci p := by
+theorem normTensor_values (td ntd : TensorD) (h : normTensor td = .ok ntd) : ntd.values = normValues td.values := by
+  unfold normTensor at h
+  cases hc : dtypeCode td.dtype with
+  | none => simp [hc, bind, Except.bind, throw, throwThe, MonadExceptOf.throw] at h
+  | some c =>
+    simp only [hc, bind, Except.bind, pure, Except.pure] at h
+    cases hr : Reader.dtypeRow c with
+    | error e => simp [hr] at h
+    | ok row =>
+      simp only [hr, Except.ok.injEq] at h
+      subst h
+      rfl
+
+theorem opSimple_of (ts : List TensorD) (ci : OpInfo) (hci : lookupOp "Custom" = some ci) (all : List Nat) (b : Nat) (T : List TensorD)
+    (p : POp) (hp : p.info.tableOk = true) (hok : opOk ts p = true) (hinv : p.info.inv.isSome = true)
+    (hw : ∀ w, p.inputs[1]? = some (some w) → w ∈ all)
+    (hT : ∀ (i g : Nat), all[i]? = some g → ∀ td, ts[g]? = some td → ∃ ntd, T[b + i]? = some ntd ∧ ntd.values = normValues td.values) :
+    OpSimple ci all b T p := by
   obtain ⟨x, hx⟩ := Option.isSome_iff_exists.mp hinv
   unfold opOk at hok
-  simp only [Bool.and_eq_true, bne_iff_ne, ne_eq, Bool.not_eq_true'] at hok
+  simp only [Bool.and_eq_true, bne_iff_ne, ne_eq] at hok
   obtain ⟨⟨hn1, hn2⟩, hcv⟩ := hok
   have hcn : ci.name = "Custom" := (lookupOp_tableOk _ _ hci).2
   have hmem : p.info ∈ opTable := by
@@ -542,8 +567,39 @@ theorem opSimple_of (ci : OpInfo) (hci : lookupOp "Custom" = some ci) (p : POp) 
     · rw [if_pos hn]
       have := List.all_eq_true.mp npu_table_fact _ hmem
       simp only [hn, hci, hx, bne_self_eq_false, Bool.false_or, Bool.and_eq_true, beq_iff_eq, Bool.not_eq_true'] at this
-      exact this.2
-    · rw [if_neg hn]; exact hcv
+      unfold Reader.cloneStep
+      simp only [this.2]
+      rfl
+    · rw [if_neg hn]
+      unfold Reader.cloneStep
+      by_cases hc : p.info.convLike = true
+      · unfold convOk at hcv
+        simp only [hc, Bool.not_true, Bool.false_or] at hcv
+        cases h1 : p.inputs[1]? with
+        | none => simp [h1] at hcv
+        | some ow =>
+          cases ow with
+          | none => simp [h1] at hcv
+          | some w =>
+            simp only [h1] at hcv
+            cases h2 : ts[w]? with
+            | none => simp [h2] at hcv
+            | some tw =>
+              simp only [h2] at hcv
+              obtain ⟨i, hi, hgi⟩ := indexIn_of_mem all w (hw w h1)
+              obtain ⟨ntd, hn1', hn2'⟩ := hT i w hgi tw h2
+              have hins : (p.inputs.map (ren all b))[1]? = some (some (b + i)) := by
+                rw [List.getElem?_map, h1]
+                simp [ren, mapIdx, hi]
+              have hv : ntd.values.isSome = false := by
+                rw [hn2']
+                cases hnv : normValues tw.values with
+                | none => rfl
+                | some v => simp [hnv] at hcv
+              simp only [hc, hins, hn1', hv, if_true]
+              rfl
+      · simp only [hc]
+        rfl
 
 /-! ## (e) one subgraph -/
 
@@ -658,7 +714,8 @@ theorem positionsOf_ok (l : List Nat) : ∃ r, Reader.positionsOf (Reader.dedupN
 theorem normSubs_ok (ts : List TensorD) (ci : OpInfo) (rcodes : List Reader.RCode) (codes : List Code)
     (bufs : List (Option Data)) (subs : List PSub) (sgs : List SubGraphT)
     (h : List.Forall₂ (SubOk ts ci rcodes codes bufs) subs sgs)
-    (hs : ∀ ps ∈ subs, ∀ p ∈ writtenOps ps, OpSimple ci p) :
+    (hs : ∀ ps ∈ subs, ∀ prev own, (sgAll ts ps).mapM (normTensorAt ts) = .ok own →
+      ∀ p ∈ writtenOps ps, OpSimple ci (sgAll ts ps) prev.length (prev ++ own) p) :
     ∀ prev, ∃ r, normSubs ts ci subs prev = .ok r := by
   induction h with
   | nil => intro prev; exact ⟨_, rfl⟩
@@ -668,7 +725,7 @@ theorem normSubs_ok (ts : List TensorD) (ci : OpInfo) (rcodes : List Reader.RCod
     obtain ⟨outs2, _, ho, _⟩ := hab.loc
     unfold normSubs normSub
     obtain ⟨pos, hpos⟩ := positionsOf_ok (renList (sgAll ts ps) prev.length outs2)
-    have hno := normOps_simple ci (sgAll ts ps) prev.length (writtenOps ps) 0 (prev ++ own) (hs ps (List.mem_cons_self ..))
+    have hno := normOps_simple ci (sgAll ts ps) prev.length (prev ++ own) (writtenOps ps) 0 (hs ps (List.mem_cons_self ..) prev own ho1)
     simp only [ho1, hno, ho, hpos, bind, Except.bind, pure, Except.pure]
     obtain ⟨r, hr⟩ := ih (fun q hq => hs q (List.mem_cons_of_mem _ hq)) (prev ++ own)
     rw [hr]
@@ -816,14 +873,27 @@ theorem read_writeWith (d : Desc) (enum : List Code) (m : ModelT) (hd : roundtri
     rw [hopc]
     simp only [h1, hciE, h3', e2, e3, e4, bind, Except.bind, pure, Except.pure]
   · intro hns
-    have hsimple : ∀ ps ∈ subs, ∀ p ∈ writtenOps ps, OpSimple ci p := by
+    have hsimple : ∀ ps ∈ subs, ∀ prev own, (sgAll d.tensors ps).mapM (normTensorAt d.tensors) = .ok own →
+        ∀ p ∈ writtenOps ps, OpSimple ci (sgAll d.tensors ps) prev.length (prev ++ own) p := by
       unfold noSurgery preppedSubs at hns
       rw [h1] at hns
-      intro ps hps p hp
+      intro ps hps prev own hown p hp
       obtain ⟨sgd, _, hprep⟩ := mapM_mem _ _ _ h1 _ hps
       obtain ⟨t1, t2⟩ := writtenOp_info d.tensors sgd ps hprep p hp
       have hok := List.all_eq_true.mp (List.all_eq_true.mp hns ps hps) p hp
-      exact opSimple_of ci hci p t1 hok t2
+      refine opSimple_of d.tensors ci hci _ _ _ p t1 hok t2 ?_ ?_
+      · intro w hw
+        exact operand_mem d.tensors ps p hp w (by
+          unfold POp.operands
+          exact List.mem_append_left _ (List.mem_append_left _ (List.mem_of_getElem? hw)))
+      · intro i g hig td htd
+        obtain ⟨_, of⟩ := mapM_ok _ _ _ hown
+        obtain ⟨ntd, hn1, hn2⟩ := of i g hig
+        unfold normTensorAt at hn2
+        simp only [htd] at hn2
+        refine ⟨ntd, ?_, normTensor_values td ntd hn2⟩
+        rw [List.getElem?_append_right (Nat.le_add_right _ _), Nat.add_sub_cancel_left]
+        exact hn1
     obtain ⟨r, hr⟩ := normSubs_ok _ _ _ _ _ _ _ hall hsimple []
     unfold normalise
     simp only [h1, hciE, hr, e4, bind, Except.bind, pure, Except.pure]
